@@ -31,7 +31,16 @@ where
             1u32.into(),
         );
 
-        let lvl_1_ks: usize = self.glwe_keyswitch_tmp_bytes_default(glwe_infos, glwe_infos, key_infos);
+        // The key-switch input is the rank-1 embedding of the LWE over the key radix, not the result.
+        let lwe_glwe_infos: GLWELayout = GLWELayout {
+            n: key_infos.n(),
+            base2k: key_infos.base2k(),
+            k: lwe_infos.max_k(),
+            rank: 1u32.into(),
+        };
+        let lvl_1_ks: usize = self
+            .glwe_keyswitch_tmp_bytes_default(glwe_infos, glwe_infos, key_infos)
+            .max(self.glwe_keyswitch_tmp_bytes_default(glwe_infos, &lwe_glwe_infos, key_infos));
         let lvl_1_a_conv: usize = if lwe_infos.base2k() == key_infos.base2k() {
             0
         } else {
